@@ -1,7 +1,112 @@
-(* C03 property theorems (statements closed by [exact]); filled as the proofs land. *)
-From Tbfmm Require Import Base.Prelude Index.MortonDefs Tree.GroupDefs Tree.BuildDefs Exec.ExecDefs.
+(* C03 — task-parallel executors equal the sequential one under every legal schedule.
+   Part 1 (this file, regenerated input): the task submission sites read from the source on every run
+   (Gen/OmpTasksGen.v, written by tools/translate_omp.py) satisfy the descriptor check: every buffer a wrapper writes is
+   declared with a write mode, every buffer it reads is declared, and every identifier a task body refers to is copied at task
+   creation (or is a member reached through the method's own `this`, outside any lambda).
+   Part 2 (appended below as the proofs land): determinism of legal schedules for the task model. *)
+From Tbfmm Require Import Base.Prelude Gen.OmpTasksGen Sched.TaskDefs.
+From Coq Require Import List String.
+Import ListNotations.
+
+(* all 8 + 6 submission sites of the two OpenMP executors are present and pass the check *)
+Theorem C03_descriptors_ok : forallb site_ok omp_sites = true /\ List.length omp_sites = 14%nat.
+Proof. vm_compute. split; reflexivity. Qed.
+Print Assumptions C03_descriptors_ok.
+
+(* execute() submits the passes in this order (near field before L2P), in both executors *)
+Theorem C03_execute_order :
+  map snd omp_execute_order = ["P2M"; "M2M"; "M2L"; "L2L"; "P2P"; "L2P"]%string /\ omptsm_execute_order = omp_execute_order.
+Proof. vm_compute. split; reflexivity. Qed.
+Print Assumptions C03_execute_order.
+
+(* the check is not vacuous: the descriptors of the pinned commit (level captured by reference in M2M; members reached through
+   the closure in the lambda sites) are rejected *)
+Example C03_pinned_M2M_rejected :
+  site_ok {| s_exec := "omp"; s_fn := "M2M"; s_in_lambda := false; s_default_shared := true;
+             s_deps := [(MIn, KMult, "lowerGroup"); (MCommute, KMult, "upperGroup")];
+             s_firstprivate := ["upperGroup"; "lowerGroup"; "kernelsPtr"];
+             s_wrappers := [("M2M", ["lowerGroup"; "upperGroup"])];
+             s_refs := ["idxLevel"; "kernelWrapper"; "kernelsPtr"; "lowerGroup"; "upperGroup"] |}%string = false.
+Proof. vm_compute. reflexivity. Qed.
+Example C03_pinned_lambda_rejected :
+  site_ok {| s_exec := "omp"; s_fn := "M2L"; s_in_lambda := true; s_default_shared := true;
+             s_deps := [(MIn, KMult, "groupSrcPtr"); (MCommute, KLoc, "groupTargetPtr")];
+             s_firstprivate := ["idxLevel"; "indexesVec"; "groupSrcPtr"; "groupTargetPtr"; "kernelsPtr"];
+             s_wrappers := [("M2LBetweenGroups", ["groupTargetPtr"; "groupSrcPtr"])];
+             s_refs := ["groupSrcPtr"; "groupTargetPtr"; "idxLevel"; "indexesVec"; "kernelWrapper"; "kernelsPtr"] |}%string = false.
+Proof. vm_compute. reflexivity. Qed.
+Example C03_missing_dependency_rejected :
+  site_ok {| s_exec := "omp"; s_fn := "L2P"; s_in_lambda := false; s_default_shared := true;
+             s_deps := [(MIn, KData, "particleGroupObj"); (MCommute, KRhs, "particleGroupObj")];
+             s_firstprivate := ["leafGroupObj"; "particleGroupObj"; "kernelsPtr"];
+             s_wrappers := [("L2P", ["leafGroupObj"; "particleGroupObj"])];
+             s_refs := ["kernelWrapper"; "kernelsPtr"; "leafGroupObj"; "particleGroupObj"] |}%string = false.
+Proof. vm_compute. reflexivity. Qed.
+
+(* ---------------- Part 2: every legal schedule of the task executor equals the sequential executor ---------------- *)
+From Tbfmm Require Import Index.MortonDefs Index.ListsDefs Index.ListsCapacity Tree.GroupDefs Tree.BuildDefs Tree.Invariant
+     Exec.ExecDefs Spec.Kernel Spec.Flags Spec.ExactlyOnce Sched.OmpDefs Sched.Determinism Sched.OmpProofs.
 Local Open Scope Z_scope.
 
-Example C03_example : has 63 F_P2P = true /\ has 6 F_P2P = false.
-Proof. vm_compute. split; reflexivity. Qed.
-Print Assumptions C03_example.
+(* generic: for ANY list of tasks whose bodies touch only what they declared, every linear extension of the declared-conflict
+   order (any interleaving a conforming runtime may choose, any worker assignment) computes the state of the submission order *)
+Theorem C03_determinism : forall L ts sigma s, Forall (task_wf L) ts -> legal ts sigma ->
+  st_eq (run_schedule L ts sigma s) (run_schedule L ts (seq 0 (List.length ts)) s).
+Proof. exact determinism. Qed.
+Print Assumptions C03_determinism.
+
+(* also when the runtime treats `commute` as mutexinoutset (OpenMP >= 5.0) and may swap two writers of the same buffer that do
+   not read each other's output: additive kernels commute *)
+Theorem C03_determinism_commute : forall L ts sigma s, Forall (task_wf L) ts -> legal_commute L ts sigma ->
+  st_eq (run_schedule L ts sigma s) (run_schedule L ts (seq 0 (List.length ts)) s).
+Proof. exact determinism_commute. Qed.
+Print Assumptions C03_determinism_commute.
+
+(* the tasks submitted by the OpenMP executor model touch only the group buffers they declare (tree invariant => task_wf) *)
+Theorem C03_omp_tasks_wf : forall d per H B mode stop flags t idx, (0 < d)%nat -> 1 <= H -> tree_ok (parent d) H B mode t -> particles_ok idx t ->
+  Forall (task_wf (H - 1)) (omp_tasks d per stop flags t).
+Proof. exact omp_tasks_wf. Qed.
+Print Assumptions C03_omp_tasks_wf.
+
+(* their bodies perform exactly the sequential executor's calls (the near field being submitted before L2P) *)
+Theorem C03_omp_submission_equals_seq : forall d per L stop t,
+  st_eq (run L (flat_map tk_calls (omp_tasks d per stop 63 t)) st0) (run L (execute d per stop 63 t) st0).
+Proof. exact omp_submission_equals_seq. Qed.
+Print Assumptions C03_omp_submission_equals_seq.
+
+Lemma st_eq_trans : forall a b c, st_eq a b -> st_eq b c -> st_eq a c.
+Proof.
+  intros a b c [H1 [H2 H3]] [K1 [K2 K3]]. repeat split; intros.
+  - rewrite H1. apply K1.
+  - rewrite H2. apply K2.
+  - rewrite H3. apply K3.
+Qed.
+
+(* MAIN: under every legal schedule the task executor leaves every cell and every particle with the sequential values *)
+Theorem C03_omp_equals_seq : forall d per H B mode stop t idx sigma, (0 < d)%nat -> 1 <= H ->
+  tree_ok (parent d) H B mode t -> particles_ok idx t ->
+  legal (omp_tasks d per stop 63 t) sigma ->
+  st_eq (run_schedule (H - 1) (omp_tasks d per stop 63 t) sigma st0) (run (H - 1) (execute d per stop 63 t) st0).
+Proof.
+  intros d per H B mode stop t idx sigma Hd HH Hok Hp Hl.
+  eapply st_eq_trans.
+  - apply determinism; [ exact (omp_tasks_wf d per H B mode stop 63 t idx Hd HH Hok Hp) | exact Hl ].
+  - rewrite run_submission_order. apply omp_submission_equals_seq.
+Qed.
+Print Assumptions C03_omp_equals_seq.
+
+(* hence exactly-once under every legal schedule (non-periodic, upper level <= 2) *)
+Theorem C03_omp_exactly_once : forall d H B mode s t idx sigma, (0 < d)%nat -> 1 <= H ->
+  tree_ok (parent d) H B mode t -> particles_ok idx t ->
+  Forall (fun i => 0 <= i < 2 ^ ((H - 1) * dz d)) idx -> idx <> [] -> s <= 2 ->
+  legal (omp_tasks d false s 63 t) sigma ->
+  forall p q, 0 <= p < zlen idx -> 0 <= q < zlen idx ->
+    reached (run_schedule (H - 1) (omp_tasks d false s 63 t) sigma st0) p q = (if p =? q then 0%nat else 1%nat).
+Proof.
+  intros d H B mode s t idx sigma Hd HH Hok Hp Hr Hne Hs Hl p q Hpp Hq.
+  pose proof (C03_omp_equals_seq d false H B mode s t idx sigma Hd HH Hok Hp Hl) as [_ [_ E]].
+  unfold reached. rewrite E.
+  pose proof (fun l t Hl Ht => ilist_cell_capacity d false l t Hd Hl Ht) as Hcap.
+  exact (fmm_exactly_once d Hd Hcap H B mode s t idx HH Hok Hp Hr Hne Hs p q Hpp Hq).
+Qed.
+Print Assumptions C03_omp_exactly_once.
